@@ -24,6 +24,7 @@ import AGH.Lemmas.RuleListTrimFacts
 import AGH.Lemmas.RuleListLink
 import AGH.Lemmas.RuleListBurst
 import AGH.Lemmas.RuleListAccept
+import AGH.Gen.C15Refresh
 namespace AGH.C15
 open AGH AGH.Bytes
 
@@ -657,5 +658,49 @@ example :
         [⟨⟨true, 0, 0, none⟩, true, none⟩, ⟨⟨true, 0, 0, none⟩, false, none⟩, ⟨⟨true, 0, 0, none⟩, false, none⟩]
         [(true, .fail), (true, .body [124, 124, 97, 10] true), (true, .fail)])[1]?).map (·.inForce)
       = some (some [124, 124, 97, 10]) := by decide +kernel
+
+
+/-! ## Translator tie: the commit / abandon decision as the source states it (regenerated per run)
+
+`extract/cmd/c15` rewrites `Gen/C15Refresh.lean` from the typed syntax of
+`internal/filtering/filter.go`.  The model's refresh step (`Model/RuleList.lean`,
+`Model/FilterConfig.lean`) commits exactly when the parse succeeded AND the
+checksum differs, touches the list's recorded state only after the file was
+replaced, and abandons the pending file otherwise; these theorems say the
+current source has that shape. -/
+
+/-- `updateIntl`: the pending file exists and `finalizeUpdate` is registered
+BEFORE the source is opened and parsed (so every later failure goes through
+it); the refresh counts as updated only when the checksum differs AND no error
+occurred, and the error is handed on. -/
+theorem C15_T_update_skeleton :
+    Gen.C15.updateSteps =
+      ["NewPendingFile", "defer:finalizeUpdate", "reader", "defer:Close", "Get", "defer:Put", "NewParser", "Parse"] ∧
+      Gen.C15.updatedConj = [("res.Checksum", "!=", "flt.checksum"), ("err", "==", "nil")] ∧
+      Gen.C15.updatedErrResult = "err" := by
+  decide
+
+/-- `finalizeUpdate`: not updated ⇒ the pending file is cleaned up and nothing
+else happens; updated ⇒ the file is replaced first, a failure of the
+replacement returns before anything is recorded, and only then title,
+checksum and rule count of the list change. -/
+theorem C15_T_finalize_skeleton :
+    Gen.C15.abandonGuard = "!updated" ∧
+      Gen.C15.abandonEvents = [("return", ""), ("call", "file.Cleanup")] ∧
+      Gen.C15.commitEvents =
+        [("call", "file.CloseReplace"), ("return", ""), ("call", "flt.ensureName"), ("assign", "flt.checksum"),
+         ("assign", "flt.RulesCount"), ("return", "")] := by
+  decide
+
+/-- On the regenerated facts: an error never counts as an update (the conjunct
+`err == nil` is present), and no field of the list is assigned on the abandon
+branch or before the replacement on the commit path. -/
+theorem C15_T_failure_records_nothing :
+    Gen.C15.updatedConj.contains ("err", "==", "nil") = true ∧
+      Gen.C15.abandonEvents.all (fun e => e.1 != "assign" && (e.1 != "call" || e.2 == "file.Cleanup")) = true ∧
+      (Gen.C15.commitEvents.takeWhile (· != ("call", "file.CloseReplace"))).all (fun e => e.1 != "assign") = true ∧
+      Gen.C15.commitEvents.head? = some ("call", "file.CloseReplace") ∧
+      (Gen.C15.commitEvents.drop 1).head? = some ("return", "") := by
+  decide
 
 end AGH.C15
